@@ -65,7 +65,9 @@ func main() {
 			fmt.Fprintf(os.Stderr, "Unexpected error: %v\n", err)
 			os.Exit(1)
 		}
-		if fi.Size() == 0 {
+		// a pipe reports a size of 0 even though data will arrive on it, so only treat an empty regular
+		// file or an interactive terminal as "no data"
+		if fi.Size() == 0 && (fi.Mode().IsRegular() || fi.Mode()&os.ModeCharDevice != 0) {
 			fmt.Fprintln(os.Stderr, "No data provided on stdin.  Use '-file' or pass data on stdin.")
 			os.Exit(1)
 		}
